@@ -35,8 +35,8 @@ PROPS = {
         "assumptions": ["ParseFloat key order-isomorphic to float order", "trial names are unique (Kubernetes)"],
     },
     "C03": {
-        "prop_files": ["Katib/Props/C03.lean"],
-        "n": {"quick": 30000, "thorough": 600000},
+        "prop_files": ["Katib/Props/C03.lean", "Katib/Props/C03Ctl.lean"],
+        "streams": [("C03", {"quick": 30000, "thorough": 600000}), ("SIM", {"quick": 240, "thorough": 8000})],
         "rule": "same generator as C05 with stored conditions in every completion state (none/Succeeded by 3 reasons/Failed/stale False verdicts), "
                 "budgets maxTrialCount 1-6 or unset, maxFailedTrialCount 0-4 or unset, goal set/unset; non-trivial = at least one trial with a metric",
         "trusted": ["strconv.ParseFloat as oracle"],
@@ -46,5 +46,89 @@ PROPS = {
                       "util.UpdateExperimentStatus by differential run + oracle. Stability over reconcile sequences: controller model (C03Ctl).",
         "level_note": "trusted: Lean kernel; harness/check; ParseFloat oracle",
         "assumptions": ["condition status is True/False (katib never writes Unknown)"],
+    },
+    "C01": {
+        "prop_files": ['Katib/Props/C01.lean'],
+        "streams": [('SIM', {'quick': 240, 'thorough': 8000})],
+        "rule": "seeded random schedules of the three real reconcilers on the fake client (1-2 experiments, optionally equally named in two namespaces; maxTrialCount 1-4/unset, parallel 1-3, maxFailed, goal, three resume policies, early stopping, retain, push collector), ops = reconciles with per-kind monotone lagging views, write-fault masks, abort points, algorithm reply faults (short/long/error, rules RPC error), job outcomes, metric arrival, early stop, deployment ready; then fault-free settling to quiescence, a quiescence probe, optionally a budget raise and a second settling; every op's write log and the whole store are compared with the Lean model; a case = one schedule; distinct = distinct op sequence",
+        "trusted": ["controller-runtime fake client stands in for the kube-apiserver (rv conflicts, status subresource, AlreadyExists)",
+                    "fake algorithm / early-stopping / DB-manager services", "typed reads inside a reconcile come from a snapshot (informer cache), run objects are read live"],
+        "modelled": ["ReconcileExperiment.Reconcile / ReconcileSuggestion.Reconcile / ReconcileTrial.Reconcile and helpers as Katib.Ctl.expPlan / sugPlan / trialPlan",
+                     "API-server semantics as Katib.Ctl.applyCall", "the op/step state machine Katib.Ctl.step"],
+        "level_text": 'budget invariants proved for every schedule of the executable controller model (Katib.Ctl.step); model tied to the real reconcilers by exact store/write-log correspondence on generated schedules; observed stores judged by the C01 oracle',
+        "level_note": "trusted: Lean kernel; harness/check; fake client as API server; views monotone per kind; the tie between Lean model and Go controllers is differential (sampling)",
+        "assumptions": ["informer caches are monotone per kind", "nobody but the controllers deletes run objects", "algorithm service returns fresh names"],
+    },
+    "C04": {
+        "prop_files": ['Katib/Props/C04.lean'],
+        "streams": [('SIM', {'quick': 240, 'thorough': 8000})],
+        "rule": "seeded random schedules of the three real reconcilers on the fake client (1-2 experiments, optionally equally named in two namespaces; maxTrialCount 1-4/unset, parallel 1-3, maxFailed, goal, three resume policies, early stopping, retain, push collector), ops = reconciles with per-kind monotone lagging views, write-fault masks, abort points, algorithm reply faults (short/long/error, rules RPC error), job outcomes, metric arrival, early stop, deployment ready; then fault-free settling to quiescence, a quiescence probe, optionally a budget raise and a second settling; every op's write log and the whole store are compared with the Lean model; a case = one schedule; distinct = distinct op sequence",
+        "trusted": ["controller-runtime fake client stands in for the kube-apiserver (rv conflicts, status subresource, AlreadyExists)",
+                    "fake algorithm / early-stopping / DB-manager services", "typed reads inside a reconcile come from a snapshot (informer cache), run objects are read live"],
+        "modelled": ["ReconcileExperiment.Reconcile / ReconcileSuggestion.Reconcile / ReconcileTrial.Reconcile and helpers as Katib.Ctl.expPlan / sugPlan / trialPlan",
+                     "API-server semantics as Katib.Ctl.applyCall", "the op/step state machine Katib.Ctl.step"],
+        "level_text": 'quiescence/no-hot-loop statements about the controller model; correspondence on generated schedules with fault-free settling and a quiescence probe; oracle demands a verdict at observed quiescence',
+        "level_note": "trusted: Lean kernel; harness/check; fake client as API server; views monotone per kind; the tie between Lean model and Go controllers is differential (sampling)",
+        "assumptions": ["informer caches are monotone per kind", "nobody but the controllers deletes run objects", "algorithm service returns fresh names"],
+    },
+    "C06": {
+        "prop_files": ['Katib/Props/C06.lean'],
+        "streams": [('SIM', {'quick': 240, 'thorough': 8000})],
+        "rule": "seeded random schedules of the three real reconcilers on the fake client (1-2 experiments, optionally equally named in two namespaces; maxTrialCount 1-4/unset, parallel 1-3, maxFailed, goal, three resume policies, early stopping, retain, push collector), ops = reconciles with per-kind monotone lagging views, write-fault masks, abort points, algorithm reply faults (short/long/error, rules RPC error), job outcomes, metric arrival, early stop, deployment ready; then fault-free settling to quiescence, a quiescence probe, optionally a budget raise and a second settling; every op's write log and the whole store are compared with the Lean model; a case = one schedule; distinct = distinct op sequence",
+        "trusted": ["controller-runtime fake client stands in for the kube-apiserver (rv conflicts, status subresource, AlreadyExists)",
+                    "fake algorithm / early-stopping / DB-manager services", "typed reads inside a reconcile come from a snapshot (informer cache), run objects are read live"],
+        "modelled": ["ReconcileExperiment.Reconcile / ReconcileSuggestion.Reconcile / ReconcileTrial.Reconcile and helpers as Katib.Ctl.expPlan / sugPlan / trialPlan",
+                     "API-server semantics as Katib.Ctl.applyCall", "the op/step state machine Katib.Ctl.step"],
+        "level_text": 'trial verdict theorems about the trial reconciler model; correspondence + oracle on generated schedules',
+        "level_note": "trusted: Lean kernel; harness/check; fake client as API server; views monotone per kind; the tie between Lean model and Go controllers is differential (sampling)",
+        "assumptions": ["informer caches are monotone per kind", "nobody but the controllers deletes run objects", "algorithm service returns fresh names"],
+    },
+    "C07": {
+        "prop_files": ['Katib/Props/C07.lean'],
+        "streams": [('SIM', {'quick': 240, 'thorough': 8000})],
+        "rule": "seeded random schedules of the three real reconcilers on the fake client (1-2 experiments, optionally equally named in two namespaces; maxTrialCount 1-4/unset, parallel 1-3, maxFailed, goal, three resume policies, early stopping, retain, push collector), ops = reconciles with per-kind monotone lagging views, write-fault masks, abort points, algorithm reply faults (short/long/error, rules RPC error), job outcomes, metric arrival, early stop, deployment ready; then fault-free settling to quiescence, a quiescence probe, optionally a budget raise and a second settling; every op's write log and the whole store are compared with the Lean model; a case = one schedule; distinct = distinct op sequence",
+        "trusted": ["controller-runtime fake client stands in for the kube-apiserver (rv conflicts, status subresource, AlreadyExists)",
+                    "fake algorithm / early-stopping / DB-manager services", "typed reads inside a reconcile come from a snapshot (informer cache), run objects are read live"],
+        "modelled": ["ReconcileExperiment.Reconcile / ReconcileSuggestion.Reconcile / ReconcileTrial.Reconcile and helpers as Katib.Ctl.expPlan / sugPlan / trialPlan",
+                     "API-server semantics as Katib.Ctl.applyCall", "the op/step state machine Katib.Ctl.step"],
+        "level_text": 'run-object lifecycle theorems about the trial reconciler model; correspondence + oracle on generated schedules',
+        "level_note": "trusted: Lean kernel; harness/check; fake client as API server; views monotone per kind; the tie between Lean model and Go controllers is differential (sampling)",
+        "assumptions": ["informer caches are monotone per kind", "nobody but the controllers deletes run objects", "algorithm service returns fresh names"],
+    },
+    "C08": {
+        "prop_files": ['Katib/Props/C08.lean'],
+        "streams": [('SIM', {'quick': 240, 'thorough': 8000})],
+        "rule": "seeded random schedules of the three real reconcilers on the fake client (1-2 experiments, optionally equally named in two namespaces; maxTrialCount 1-4/unset, parallel 1-3, maxFailed, goal, three resume policies, early stopping, retain, push collector), ops = reconciles with per-kind monotone lagging views, write-fault masks, abort points, algorithm reply faults (short/long/error, rules RPC error), job outcomes, metric arrival, early stop, deployment ready; then fault-free settling to quiescence, a quiescence probe, optionally a budget raise and a second settling; every op's write log and the whole store are compared with the Lean model; a case = one schedule; distinct = distinct op sequence",
+        "trusted": ["controller-runtime fake client stands in for the kube-apiserver (rv conflicts, status subresource, AlreadyExists)",
+                    "fake algorithm / early-stopping / DB-manager services", "typed reads inside a reconcile come from a snapshot (informer cache), run objects are read live"],
+        "modelled": ["ReconcileExperiment.Reconcile / ReconcileSuggestion.Reconcile / ReconcileTrial.Reconcile and helpers as Katib.Ctl.expPlan / sugPlan / trialPlan",
+                     "API-server semantics as Katib.Ctl.applyCall", "the op/step state machine Katib.Ctl.step"],
+        "level_text": 'append-only / atomic-sync theorems about the suggestion reconciler model; correspondence + oracle on generated schedules',
+        "level_note": "trusted: Lean kernel; harness/check; fake client as API server; views monotone per kind; the tie between Lean model and Go controllers is differential (sampling)",
+        "assumptions": ["informer caches are monotone per kind", "nobody but the controllers deletes run objects", "algorithm service returns fresh names"],
+    },
+    "C09": {
+        "prop_files": ['Katib/Props/C09.lean'],
+        "streams": [('SIM', {'quick': 240, 'thorough': 8000})],
+        "rule": "seeded random schedules of the three real reconcilers on the fake client (1-2 experiments, optionally equally named in two namespaces; maxTrialCount 1-4/unset, parallel 1-3, maxFailed, goal, three resume policies, early stopping, retain, push collector), ops = reconciles with per-kind monotone lagging views, write-fault masks, abort points, algorithm reply faults (short/long/error, rules RPC error), job outcomes, metric arrival, early stop, deployment ready; then fault-free settling to quiescence, a quiescence probe, optionally a budget raise and a second settling; every op's write log and the whole store are compared with the Lean model; a case = one schedule; distinct = distinct op sequence",
+        "trusted": ["controller-runtime fake client stands in for the kube-apiserver (rv conflicts, status subresource, AlreadyExists)",
+                    "fake algorithm / early-stopping / DB-manager services", "typed reads inside a reconcile come from a snapshot (informer cache), run objects are read live"],
+        "modelled": ["ReconcileExperiment.Reconcile / ReconcileSuggestion.Reconcile / ReconcileTrial.Reconcile and helpers as Katib.Ctl.expPlan / sugPlan / trialPlan",
+                     "API-server semantics as Katib.Ctl.applyCall", "the op/step state machine Katib.Ctl.step"],
+        "level_text": 'request-content theorems about the suggestion reconciler model; correspondence + oracle on schedules with two namespaces / equal names',
+        "level_note": "trusted: Lean kernel; harness/check; fake client as API server; views monotone per kind; the tie between Lean model and Go controllers is differential (sampling)",
+        "assumptions": ["informer caches are monotone per kind", "nobody but the controllers deletes run objects", "algorithm service returns fresh names"],
+    },
+    "C16": {
+        "prop_files": ['Katib/Props/C16.lean'],
+        "streams": [('SIM', {'quick': 240, 'thorough': 8000})],
+        "rule": "seeded random schedules of the three real reconcilers on the fake client (1-2 experiments, optionally equally named in two namespaces; maxTrialCount 1-4/unset, parallel 1-3, maxFailed, goal, three resume policies, early stopping, retain, push collector), ops = reconciles with per-kind monotone lagging views, write-fault masks, abort points, algorithm reply faults (short/long/error, rules RPC error), job outcomes, metric arrival, early stop, deployment ready; then fault-free settling to quiescence, a quiescence probe, optionally a budget raise and a second settling; every op's write log and the whole store are compared with the Lean model; a case = one schedule; distinct = distinct op sequence",
+        "trusted": ["controller-runtime fake client stands in for the kube-apiserver (rv conflicts, status subresource, AlreadyExists)",
+                    "fake algorithm / early-stopping / DB-manager services", "typed reads inside a reconcile come from a snapshot (informer cache), run objects are read live"],
+        "modelled": ["ReconcileExperiment.Reconcile / ReconcileSuggestion.Reconcile / ReconcileTrial.Reconcile and helpers as Katib.Ctl.expPlan / sugPlan / trialPlan",
+                     "API-server semantics as Katib.Ctl.applyCall", "the op/step state machine Katib.Ctl.step"],
+        "level_text": 'resume-policy theorems about the controller model; correspondence + oracle on schedules with budget raises',
+        "level_note": "trusted: Lean kernel; harness/check; fake client as API server; views monotone per kind; the tie between Lean model and Go controllers is differential (sampling)",
+        "assumptions": ["informer caches are monotone per kind", "nobody but the controllers deletes run objects", "algorithm service returns fresh names"],
     },
 }
